@@ -1276,9 +1276,9 @@ impl RaftLogManager {
                 if is_remove {
                     pop_count += 1;
                 }
-            } else {
-                break;
             }
+            //a closed file that ends at or before the cut keeps all its records;
+            //the files after it still have to be truncated
         }
         if pop_count > 0 {
             let log_count = self.logs.len() - pop_count;
